@@ -104,8 +104,10 @@ def run(tier, seed):
             "the children entries at its parent and by the model",
             "the top CA's reports about the trust anchor are not compared",
         ], rule=RULE,
-        mc_cfgs=(["MC_Krill_q_status.cfg"] if tier == "quick"
-                 else ["MC_Krill_q_status.cfg", "MC_Krill_status.cfg"]),
+        mc_cfgs=(["MC_Krill_q_status.cfg", "MC_Krill_q_recreate.cfg"]
+                 if tier == "quick"
+                 else ["MC_Krill_q_status.cfg", "MC_Krill_q_recreate.cfg",
+                       "MC_Krill_status.cfg"]),
         needed_events=NEEDED + ["RemoveParent", "AddParent"],
         directed=(DIRECTED + kc.MULTI_DIRECTED[:1]
                   + kc.clause("foreign-limit-refused")),
